@@ -53,7 +53,9 @@
      BugNoStaticOnUnwind   unwinding never releases a static slot
      BugRetDoubleCount     return values are counted again when they are moved to the caller's stack
      BugArgsDoubleRelease  the arguments are released twice when they leave the caller's stack
-     BugExcNotCounted      the exception item is pushed on the handler's stack without being counted *)
+     BugExcNotCounted      the exception item is pushed on the handler's stack without being counted
+     BugRetLeavesRest      RET does not enforce the return count: only the top `count` items of the callee's stack are
+                           moved, what is below them is neither moved nor released *)
 EXTENDS Integers, Sequences, FiniteSets, FiniteSetsExt, TLC
 
 CONSTANTS N,          \* compound (array) ids 1..N; 0 is "some primitive item"
@@ -68,7 +70,8 @@ CONSTANTS N,          \* compound (array) ids 1..N; 0 is "some primitive item"
           Limit,      \* the item limit (MaxStackSize scaled down; large = never reached)
           MaxLeak,    \* state constraint: surplus of the counter over the walk
           UnwindReleasesStack,
-          BugTruncFirst, BugNoStaticOnUnwind, BugRetDoubleCount, BugArgsDoubleRelease, BugExcNotCounted
+          BugTruncFirst, BugNoStaticOnUnwind, BugRetDoubleCount, BugArgsDoubleRelease, BugExcNotCounted,
+          BugRetLeavesRest
 
 VARIABLES h,        \* heap: [kd: id -> "arr"|"free", k: id -> Seq(ref), rc: id -> Int, refs: Int]
           scs,      \* loaded script contexts, bottom first: Seq([st, ss, own, kind])
@@ -296,11 +299,12 @@ Ret ==
                 S0   == ButLast(scs)
                 co   == Owner(S0, F1[Len(F1)].sc)      \* the stack the caller works on
                 old  == IF c.own THEN c.st ELSE S0[co].st
-                bad  == \/ c.own /\ c.kind = "rv1" /\ Len(old) # 1
-                        \/ c.own /\ c.kind \in {"rv0", "cc0"} /\ Len(old) # 0
-                        \/ c.kind = "dyn" /\ Len(old) > 1
+                rv   == CASE c.kind = "rv1" -> 1 [] c.kind \in {"rv0", "cc0"} -> 0 [] OTHER -> 0 - 1
+                bad  == \/ c.own /\ rv >= 0 /\ Len(old) # rv /\ ~BugRetLeavesRest
+                        \/ c.kind \in {"dyn", "cc0"} /\ Len(old) > 1
                 addN == c.kind \in {"cc0", "dyn"} /\ Len(old) = 0       \* DynamicOnUnload pushes a Null
-                st1  == IF c.own THEN S0[co].st \o old ELSE S0[co].st
+                mv   == IF BugRetLeavesRest /\ rv >= 0 /\ Len(old) > rv THEN SubSeq(old, Len(old) - rv + 1, Len(old)) ELSE old
+                st1  == IF c.own THEN S0[co].st \o mv ELSE S0[co].st
                 st2  == IF addN THEN Append(st1, 0) ELSE st1
                 hM   == IF c.own /\ BugRetDoubleCount THEN AddList(old, 1, h) ELSE h     \* pushNoRef
                 hU   == RemList(c.ss, 1, RemList(f.loc, 1, hM))
